@@ -151,6 +151,11 @@ Proof.
   - auto_inv HI.
   - auto_inv HI.
   - auto_inv HI.
+  - auto_inv HI.
+  - auto_inv HI.
+  - auto_inv HI.
+  - auto_inv HI.
+  - auto_inv HI.
 Qed.
 
 Lemma reach_inv s : reach s -> Inv s.
@@ -211,18 +216,34 @@ Proof.
     split; auto; apply upd_other; congruence.
 Qed.
 
-(* an open handle is fully usable in every reachable state: writes pass, reads only ever return data *)
+(* an open handle is fully usable in every reachable state: writes pass, reads only ever return data -
+   or a timeout, which is the handle's OWN read deadline (see timeout_only_own_deadline) *)
 Lemma open_usable s h : reach s -> hpcs s h = HOpen ->
-  write_outcome s h = WOk /\ (forall k r, rds s k = RRet h r -> r = ROk).
+  write_outcome s h = WOk /\ (forall k r, rds s k = RRet h r -> r = ROk \/ r = RTimeout).
 Proof.
   intros Hr Ho. pose proof (reach_inv _ Hr) as HI.
   assert (Hc : cancelled s h = false) by (rewrite (j_canc _ HI), Ho; reflexivity).
   assert (Hu : ucloses s = O) by (apply (not_closed_while_held s h Hr); rewrite Ho; reflexivity).
   split.
   - unfold write_outcome. rewrite Hc, Hu. reflexivity.
-  - intros k r Hk. destruct r; [reflexivity| |].
+  - intros k r Hk. destruct r; [left; reflexivity| | |right; reflexivity].
     + pose proof (j_rd_cp _ HI k h Hk). congruence.
     + pose proof (j_rd_eof _ HI k h Hk). lia.
+Qed.
+
+(* a read returns a timeout only if it was started while the handle's own deadline was in the past;
+   a read started with no deadline or one far in the future parks with (a context derived from) the
+   handle's context *)
+Lemma timeout_only_own_deadline s l s' k h :
+  step s l s' ->
+  (l = LReadRet k h RTimeout -> rds s k = RWaitPast h) /\
+  (rds s' k = RWaitPast h -> rds s k = RWaitPast h \/ (rds s k = RIdle /\ rdl s h = DPast /\ cancelled s h = false)) /\
+  (rds s' k = RWait h -> rds s k = RWait h \/ (rds s k = RIdle /\ rdl s h <> DPast /\ cancelled s h = false)).
+Proof.
+  intros Hs. inversion Hs; subst; simpl; repeat split; try discriminate; auto;
+    try (intros E; inversion E; subst; assumption);
+    unfold upd; destruct (Nat.eqb_spec k k0); subst; intros E; try discriminate; auto;
+    inversion E; subst; auto.
 Qed.
 
 (* the closed handle's own I/O fails: writes return ErrClosedPipe from the cancel step on, a
@@ -243,7 +264,7 @@ Proof.
   repeat split.
   - unfold write_outcome. rewrite Hc. reflexivity.
   - intros k Hk. eexists. apply r_cancel; eauto.
-  - intros k s' Hk Hs. inversion Hs; subst; simpl; rewrite ?upd_same; auto. congruence.
+  - intros k s' Hk Hs. inversion Hs; subst; simpl; rewrite ?upd_same; auto; congruence.
 Qed.
 
 (* a read on h returns ErrClosedPipe only if h itself was closed *)
@@ -274,7 +295,7 @@ Lemma sibling_unaffected s : reach s ->
   (forall l s' h', step s l s' -> actor l <> Some h' ->
      hpcs s' h' = hpcs s h' /\ cancelled s' h' = cancelled s h') /\
   (forall h, hpcs s h = HOpen ->
-     write_outcome s h = WOk /\ (forall k r, rds s k = RRet h r -> r = ROk)).
+     write_outcome s h = WOk /\ (forall k r, rds s k = RRet h r -> r = ROk \/ r = RTimeout)).
 Proof.
   intros Hr. split.
   - intros l s' h' Hs Ha. eapply sibling_frame; eauto.
@@ -384,22 +405,42 @@ Proof. unfold all_ok. apply forallb_app. Qed.
 
 (* ---- the relation between the sequential model and the monitor's bookkeeping --------------------- *)
 Definition slot (fs : fstate) (h : nat) := nth_error (fread fs) h.
+Definition slot_open_ok (v : rslot) : Prop :=
+  v = RNone \/ v = RBlocked \/ (exists k, v = RData k) \/ v = RGot RTimeout.
 
 Record Rel (fs : fstate) (m : mstate) : Prop := {
   r_cl : mcl m = fclosed fs;
   r_len : List.length (fread fs) = List.length (fclosed fs);
   r_lenl : List.length (mlate m) = List.length (fclosed fs);
+  r_lent : List.length (mto m) = List.length (fclosed fs);
+  r_dl : mdl m = fdl fs;
   r_closes : mscope m = true -> closes_ok (fclosed fs) (Z.of_nat (fcloses fs)) = true;
-  r_open : mscope m = true -> forall h, nth_error (fclosed fs) h = Some false ->
-           slot fs h = Some RNone \/ slot fs h = Some RBlocked \/ slot fs h = Some (RGot ROk);
-  r_closed : forall h, nth_error (fclosed fs) h = Some true -> slot fs h <> Some RBlocked;
+  r_open : mscope m = true -> forall h v, nth_error (fclosed fs) h = Some false -> slot fs h = Some v -> slot_open_ok v;
+  r_topen : mscope m = true -> forall h, nth_error (fclosed fs) h = Some false ->
+            nth_error (mto m) h = Some true -> slot fs h <> Some RBlocked;
+  r_to : forall h, slot fs h = Some (RGot RTimeout) -> nth_error (mto m) h = Some true;
+  r_closed : forall h, nth_error (fclosed fs) h = Some true ->
+             slot fs h <> Some RBlocked /\ forall k, slot fs h <> Some (RData k);
   r_late : forall h, nth_error (fclosed fs) h = Some true -> nth_error (mlate m) h = Some true ->
            slot fs h = Some RNone \/ slot fs h = Some (RGot RClosedPipe);
-  r_late_open : forall h, nth_error (fclosed fs) h = Some false -> nth_error (mlate m) h = Some false
+  r_late_open : forall h, nth_error (fclosed fs) h = Some false -> nth_error (mlate m) h = Some false;
+  r_nook : forall h, slot fs h <> Some (RGot ROk)
 }.
 
 Lemma rel_init : Rel finit minit.
-Proof. constructor; simpl; auto; intros; destruct h; discriminate. Qed.
+Proof.
+  constructor; simpl; auto; unfold slot; simpl; intros; try (destruct h; discriminate).
+Qed.
+
+(* Rel only looks at these components *)
+Lemma rel_ext fs m fs' m' : Rel fs m ->
+  fclosed fs' = fclosed fs -> fcloses fs' = fcloses fs -> fread fs' = fread fs -> fdl fs' = fdl fs ->
+  mcl m' = mcl m -> mlate m' = mlate m -> mscope m' = mscope m -> mdl m' = mdl m -> mto m' = mto m ->
+  Rel fs' m'.
+Proof.
+  intros [A B C D E F G H I J K L M] e1 e2 e3 e4 e5 e6 e7 e8 e9.
+  constructor; unfold slot in *; rewrite ?e1, ?e2, ?e3, ?e4, ?e5, ?e6, ?e7, ?e8, ?e9; assumption.
+Qed.
 
 Lemma closes_ok_zero cl c : closes_ok cl (Z.of_nat c) = true -> (exists h, nth_error cl h = Some false) -> c = O.
 Proof.
@@ -407,68 +448,122 @@ Proof.
   rewrite (all_closed_false_open _ _ Hh) in H. apply Z.eqb_eq in H. lia.
 Qed.
 
-(* closing one handle *)
-Lemma rel_close fs m h : Rel fs m ->
-  Rel (f_close fs h) {| mcl := mark_one (mcl m) h; mlate := mlate m; mscope := mscope m |}.
+(* updating the read slot of one handle (and possibly its late / past-deadline flags) *)
+Lemma rel_update_slot fs m fs' m' h v sl :
+  Rel fs m -> nth_error (fread fs) h = Some sl ->
+  fclosed fs' = fclosed fs -> fcloses fs' = fcloses fs -> fdl fs' = fdl fs -> fread fs' = set_nth (fread fs) h v ->
+  mcl m' = mcl m -> mscope m' = mscope m -> mdl m' = mdl m ->
+  List.length (mlate m') = List.length (mlate m) -> (forall k, k <> h -> nth_error (mlate m') k = nth_error (mlate m) k) ->
+  List.length (mto m') = List.length (mto m) -> (forall k, k <> h -> nth_error (mto m') k = nth_error (mto m) k) ->
+  (mscope m = true -> nth_error (fclosed fs) h = Some false -> slot_open_ok v) ->
+  (mscope m = true -> nth_error (fclosed fs) h = Some false -> nth_error (mto m') h = Some true -> v <> RBlocked) ->
+  (v = RGot RTimeout -> nth_error (mto m') h = Some true) ->
+  (nth_error (fclosed fs) h = Some true -> v <> RBlocked /\ forall k, v <> RData k) ->
+  (nth_error (fclosed fs) h = Some true -> nth_error (mlate m') h = Some true -> v = RNone \/ v = RGot RClosedPipe) ->
+  (nth_error (fclosed fs) h = Some false -> nth_error (mlate m') h = Some false) ->
+  v <> RGot ROk ->
+  Rel fs' m'.
 Proof.
-  intros HR. destruct HR as [Hcl Hlen Hlenl Hcloses Hopen Hclosed Hlate Hlo].
-  unfold f_close, mark_one. rewrite Hcl.
-  destruct (nth_error (fclosed fs) h) as [[|]|] eqn:E.
-  - (* already closed *)
-    rewrite (set_nth_same _ _ _ E). constructor; simpl; auto.
-  - (* open: close it *)
-    assert (Hslot : exists sl, nth_error (fread fs) h = Some sl).
-    { destruct (nth_error (fread fs) h) eqn:E2; [eauto|]. apply nth_error_None in E2.
-      apply nth_error_lt in E. lia. }
-    destruct Hslot as [sl Hsl].
-    set (rd := match nth_error (fread fs) h with
-               | Some RBlocked => set_nth (fread fs) h (RGot RClosedPipe)
-               | Some (RGot ROk) => set_nth (fread fs) h REither
-               | _ => fread fs end).
-    assert (Hrdlen : List.length rd = List.length (fread fs)).
-    { unfold rd. rewrite Hsl. destruct sl as [| |[| |]|]; rewrite ?set_nth_length; reflexivity. }
-    assert (Hrd_other : forall k, k <> h -> nth_error rd k = nth_error (fread fs) k).
-    { intros k Hk. unfold rd. rewrite Hsl. destruct sl as [| |[| |]|]; rewrite ?nth_set_nth_neq by congruence; reflexivity. }
-    assert (Hrd_h : nth_error rd h <> Some RBlocked /\
-                    (mscope m = true -> nth_error rd h = Some RNone \/ nth_error rd h = Some (RGot RClosedPipe) \/ nth_error rd h = Some REither)).
-    { unfold rd. rewrite Hsl. split.
-      - destruct sl as [| |[| |]|]; rewrite ?(nth_set_nth_eq _ _ _ _ Hsl), ?Hsl; congruence.
-      - intros Hs. destruct (Hopen Hs h E) as [H|[H|H]]; unfold slot in H; rewrite Hsl in H; inversion H; subst;
-          rewrite ?(nth_set_nth_eq _ _ _ _ Hsl), ?Hsl; auto. }
-    constructor; simpl; fold rd.
-    + reflexivity.
-    + rewrite Hrdlen, set_nth_length. exact Hlen.
-    + rewrite set_nth_length. exact Hlenl.
-    + intros Hs. specialize (Hcloses Hs).
-      assert (fcloses fs = O) by (eapply closes_ok_zero; eauto). rewrite H.
-      unfold closes_ok. destruct (set_nth (fclosed fs) h true) eqn:E3.
-      * apply (f_equal (@List.length bool)) in E3. rewrite set_nth_length in E3. apply nth_error_lt in E. simpl in E3. lia.
-      * rewrite <- E3. destruct (all_closed (set_nth (fclosed fs) h true)); reflexivity.
-    + intros Hs k Hk. unfold slot; simpl. fold rd.
-      destruct (Nat.eq_dec k h) as [->|Hne].
-      * rewrite (nth_set_nth_eq _ _ _ _ E) in Hk. discriminate.
-      * rewrite nth_set_nth_neq in Hk by congruence. rewrite Hrd_other by assumption. apply (Hopen Hs k Hk).
-    + intros k Hk. unfold slot; simpl. fold rd.
-      destruct (Nat.eq_dec k h) as [->|Hne]; [apply Hrd_h|].
-      rewrite nth_set_nth_neq in Hk by congruence. rewrite Hrd_other by assumption. apply (Hclosed k Hk).
-    + intros k Hk Hl. unfold slot; simpl. fold rd.
-      destruct (Nat.eq_dec k h) as [->|Hne].
-      * (* the read in progress on h was started while h was open: mlate h = false, unless no read *)
-        rewrite (Hlo h E) in Hl. discriminate.
-      * rewrite nth_set_nth_neq in Hk by congruence. rewrite Hrd_other by assumption. apply (Hlate k Hk Hl).
-    + intros k Hk. destruct (Nat.eq_dec k h) as [->|Hne].
-      * rewrite (nth_set_nth_eq _ _ _ _ E) in Hk. discriminate.
-      * rewrite nth_set_nth_neq in Hk by congruence. apply (Hlo k Hk).
-  - constructor; simpl; auto.
+  intros [Hcl Hlen Hlenl Hlent Hdl Hcloses Hopen Htopen Hto Hclosed Hlate Hlo Hnook] Hsl
+         e1 e2 e3 e4 e5 e6 e7 Hll Hlk Htl Htk c1 c2 c3 c4 c5 c6 c7.
+  constructor; unfold slot in *; rewrite ?e1, ?e2, ?e3, ?e4, ?e5, ?e6, ?e7.
+  - exact Hcl.
+  - rewrite set_nth_length. exact Hlen.
+  - rewrite Hll. exact Hlenl.
+  - rewrite Htl. exact Hlent.
+  - exact Hdl.
+  - exact Hcloses.
+  - intros Hs k w Hk Hw. destruct (Nat.eq_dec h k) as [<-|Hne].
+    + rewrite (nth_set_nth_eq _ _ _ _ Hsl) in Hw. inversion Hw; subst. apply c1; assumption.
+    + rewrite nth_set_nth_neq in Hw by assumption. eapply Hopen; eauto.
+  - intros Hs k Hk Ht. destruct (Nat.eq_dec h k) as [<-|Hne].
+    + rewrite (nth_set_nth_eq _ _ _ _ Hsl). intros E. inversion E. eapply c2; eauto.
+    + rewrite Htk in Ht by congruence. rewrite nth_set_nth_neq by assumption. apply (Htopen Hs k Hk Ht).
+  - intros k Hk. destruct (Nat.eq_dec h k) as [<-|Hne].
+    + rewrite (nth_set_nth_eq _ _ _ _ Hsl) in Hk. inversion Hk. apply c3. assumption.
+    + rewrite nth_set_nth_neq in Hk by assumption. rewrite Htk by congruence. apply (Hto k Hk).
+  - intros k Hk. destruct (Nat.eq_dec h k) as [<-|Hne].
+    + rewrite (nth_set_nth_eq _ _ _ _ Hsl). destruct (c4 Hk) as [Ha Hb]. split.
+      * intros E. inversion E. auto.
+      * intros j E. inversion E. eapply Hb; eauto.
+    + rewrite nth_set_nth_neq by assumption. apply (Hclosed k Hk).
+  - intros k Hk Hl. destruct (Nat.eq_dec h k) as [<-|Hne].
+    + rewrite (nth_set_nth_eq _ _ _ _ Hsl). destruct (c5 Hk Hl) as [->| ->]; auto.
+    + rewrite Hlk in Hl by congruence. rewrite nth_set_nth_neq by assumption. apply (Hlate k Hk Hl).
+  - intros k Hk. destruct (Nat.eq_dec h k) as [<-|Hne]; [apply (c6 Hk)|].
+    rewrite Hlk by congruence. apply (Hlo k Hk).
+  - intros k. destruct (Nat.eq_dec h k) as [<-|Hne].
+    + rewrite (nth_set_nth_eq _ _ _ _ Hsl). intros E. inversion E. auto.
+    + rewrite nth_set_nth_neq by assumption. apply Hnook.
 Qed.
 
-Lemma rel_closes hs : forall fs m, Rel fs m ->
-  Rel (fold_left f_close hs fs) {| mcl := fold_left mark_one hs (mcl m); mlate := mlate m; mscope := mscope m |}.
+(* closing one handle *)
+Lemma rel_close fs m h : Rel fs m -> Rel (f_close fs h) (mark_close m h).
 Proof.
-  induction hs as [|h hs IH]; intros fs m HR; simpl.
-  - destruct m; exact HR.
-  - apply (IH (f_close fs h) {| mcl := mark_one (mcl m) h; mlate := mlate m; mscope := mscope m |}).
-    apply rel_close. exact HR.
+  intros HR. pose proof HR as HR0.
+  destruct HR as [Hcl Hlen Hlenl Hlent Hdl Hcloses Hopen Htopen Hto Hclosed Hlate Hlo Hnook].
+  unfold f_close, mark_close. rewrite Hcl.
+  destruct (nth_error (fclosed fs) h) as [[|]|] eqn:E; try exact HR0.
+  assert (Hslot : exists sl, nth_error (fread fs) h = Some sl).
+  { destruct (nth_error (fread fs) h) eqn:E2; [eauto|]. apply nth_error_None in E2.
+    apply nth_error_lt in E. lia. }
+  destruct Hslot as [sl Hsl].
+  set (rd := match nth_error (fread fs) h with
+             | Some RBlocked => set_nth (fread fs) h (RGot RClosedPipe)
+             | Some (RData _) => set_nth (fread fs) h REither
+             | _ => fread fs end).
+  assert (Hrdlen : List.length rd = List.length (fread fs)).
+  { unfold rd. rewrite Hsl. destruct sl; rewrite ?set_nth_length; reflexivity. }
+  assert (Hrd_other : forall k, k <> h -> nth_error rd k = nth_error (fread fs) k).
+  { intros k Hk. unfold rd. rewrite Hsl. destruct sl; rewrite ?nth_set_nth_neq by congruence; reflexivity. }
+  assert (Hrd_h : exists v, nth_error rd h = Some v /\ v <> RBlocked /\ (forall k, v <> RData k) /\ v <> RGot ROk /\
+                  (v = RGot RTimeout -> sl = RGot RTimeout)).
+  { unfold rd. rewrite Hsl. destruct sl as [| |j|r|].
+    - exists RNone. rewrite Hsl. repeat split; congruence.
+    - exists (RGot RClosedPipe). rewrite (nth_set_nth_eq _ _ _ _ Hsl). repeat split; congruence.
+    - exists REither. rewrite (nth_set_nth_eq _ _ _ _ Hsl). repeat split; congruence.
+    - exists (RGot r). rewrite Hsl. repeat split; try congruence.
+      intros Hr. apply (Hnook h). unfold slot. rewrite Hsl, Hr. reflexivity.
+    - exists REither. rewrite Hsl. repeat split; congruence. }
+  destruct Hrd_h as (v & Hv & Hvb & Hvd & Hvo & Hvt).
+  constructor; unfold slot; simpl; fold rd.
+  - reflexivity.
+  - rewrite Hrdlen, set_nth_length. exact Hlen.
+  - rewrite set_nth_length. exact Hlenl.
+  - rewrite set_nth_length. exact Hlent.
+  - exact Hdl.
+  - intros Hs. specialize (Hcloses Hs).
+    assert (fcloses fs = O) by (eapply closes_ok_zero; eauto). rewrite H.
+    unfold closes_ok. destruct (set_nth (fclosed fs) h true) eqn:E3.
+    + apply (f_equal (@List.length bool)) in E3. rewrite set_nth_length in E3. apply nth_error_lt in E. simpl in E3. lia.
+    + rewrite <- E3. destruct (all_closed (set_nth (fclosed fs) h true)); reflexivity.
+  - intros Hs k w Hk Hw. destruct (Nat.eq_dec k h) as [->|Hne].
+    + rewrite (nth_set_nth_eq _ _ _ _ E) in Hk. discriminate.
+    + rewrite nth_set_nth_neq in Hk by congruence. rewrite Hrd_other in Hw by assumption. eapply Hopen; eauto.
+  - intros Hs k Hk Ht. destruct (Nat.eq_dec k h) as [->|Hne].
+    + rewrite (nth_set_nth_eq _ _ _ _ E) in Hk. discriminate.
+    + rewrite nth_set_nth_neq in Hk by congruence. rewrite Hrd_other by assumption. apply (Htopen Hs k Hk Ht).
+  - intros k Hk. destruct (Nat.eq_dec k h) as [->|Hne].
+    + rewrite Hv in Hk. inversion Hk. apply Hto. unfold slot. rewrite Hsl, (Hvt H0). reflexivity.
+    + rewrite Hrd_other in Hk by assumption. apply (Hto k Hk).
+  - intros k Hk. destruct (Nat.eq_dec k h) as [->|Hne].
+    + rewrite Hv. split; [intros X; inversion X; auto|intros j X; inversion X; eapply Hvd; eauto].
+    + rewrite nth_set_nth_neq in Hk by congruence. rewrite Hrd_other by assumption. apply (Hclosed k Hk).
+  - intros k Hk Hl. destruct (Nat.eq_dec k h) as [->|Hne].
+    + rewrite (Hlo h E) in Hl. discriminate.
+    + rewrite nth_set_nth_neq in Hk by congruence. rewrite Hrd_other by assumption. apply (Hlate k Hk Hl).
+  - intros k Hk. destruct (Nat.eq_dec k h) as [->|Hne].
+    + rewrite (nth_set_nth_eq _ _ _ _ E) in Hk. discriminate.
+    + rewrite nth_set_nth_neq in Hk by congruence. apply (Hlo k Hk).
+  - intros k. destruct (Nat.eq_dec k h) as [->|Hne].
+    + rewrite Hv. intros X. inversion X. auto.
+    + rewrite Hrd_other by assumption. apply Hnook.
+Qed.
+
+Lemma rel_closes hs : forall fs m, Rel fs m -> Rel (fold_left f_close hs fs) (fold_left mark_close hs m).
+Proof.
+  induction hs as [|h hs IH]; intros fs m HR; simpl; [exact HR|].
+  apply IH. apply rel_close. exact HR.
 Qed.
 
 Lemma closes_check_ok fs m : Rel fs m ->
@@ -491,39 +586,10 @@ Proof.
   rewrite <- E, all_closed_app_false. reflexivity.
 Qed.
 
-(* updating the read slot of one handle (and possibly its late flag) *)
-Lemma rel_update_slot fs m h v q ml sl c :
-  c = fclosed fs ->
-  Rel fs m -> nth_error (fread fs) h = Some sl ->
-  (mscope m = true -> nth_error (fclosed fs) h = Some false -> v = RNone \/ v = RBlocked \/ v = RGot ROk) ->
-  (nth_error (fclosed fs) h = Some true -> v <> RBlocked) ->
-  (nth_error (fclosed fs) h = Some true -> nth_error ml h = Some true -> v = RNone \/ v = RGot RClosedPipe) ->
-  (forall k, k <> h -> nth_error ml k = nth_error (mlate m) k) -> List.length ml = List.length (mlate m) ->
-  (nth_error (fclosed fs) h = Some false -> nth_error ml h = Some false) ->
-  Rel {| fclosed := fclosed fs; fcloses := fcloses fs; fread := set_nth (fread fs) h v; fqueued := q |}
-      {| mcl := c; mlate := ml; mscope := mscope m |}.
+Lemma nth_error_in_range {A} (l : list A) h n : List.length l = n -> (h < n)%nat -> exists x, nth_error l h = Some x.
 Proof.
-  intros Hc [Hcl Hlen Hlenl Hcloses Hopen Hclosed Hlate Hlo] Hsl Hvo Hvc Hvl Hmlk Hmll Hmlo.
-  constructor; simpl.
-  - exact Hc.
-  - rewrite set_nth_length. exact Hlen.
-  - rewrite Hmll. exact Hlenl.
-  - exact Hcloses.
-  - intros Hs k Hk. unfold slot; simpl. destruct (Nat.eq_dec h k) as [<-|Hne].
-    + rewrite (nth_set_nth_eq _ _ _ _ Hsl). destruct (Hvo Hs Hk) as [->|[->| ->]]; auto.
-    + rewrite nth_set_nth_neq by assumption. apply (Hopen Hs k Hk).
-  - intros k Hk. unfold slot; simpl. destruct (Nat.eq_dec h k) as [<-|Hne].
-    + rewrite (nth_set_nth_eq _ _ _ _ Hsl). intros H. inversion H. apply (Hvc Hk). assumption.
-    + rewrite nth_set_nth_neq by assumption. apply (Hclosed k Hk).
-  - intros k Hk Hl. unfold slot; simpl. destruct (Nat.eq_dec h k) as [<-|Hne].
-    + rewrite (nth_set_nth_eq _ _ _ _ Hsl). destruct (Hvl Hk Hl) as [->| ->]; auto.
-    + rewrite Hmlk in Hl by congruence. rewrite nth_set_nth_neq by assumption. apply (Hlate k Hk Hl).
-  - intros k Hk. destruct (Nat.eq_dec h k) as [<-|Hne]; [apply (Hmlo Hk)|].
-    rewrite Hmlk by congruence. apply (Hlo k Hk).
+  intros Hl Hh. destruct (nth_error l h) eqn:E; [eauto|]. apply nth_error_None in E. lia.
 Qed.
-
-Lemma rel_same fs m : Rel fs m -> Rel fs {| mcl := mcl m; mlate := mlate m; mscope := mscope m |}.
-Proof. destruct m; auto. Qed.
 
 (* one operation: the monitor accepts the model's observation and the relation is kept *)
 Lemma step_ok fs m o : Rel fs m ->
@@ -532,34 +598,43 @@ Lemma step_ok fs m o : Rel fs m ->
 Proof.
   intros HR. destruct o; simpl.
   - (* ONew *)
-    assert (HR' : Rel {| fclosed := fclosed fs ++ [false]; fcloses := fcloses fs; fread := fread fs ++ [RNone]; fqueued := fqueued fs |}
-                      {| mcl := mcl m ++ [false]; mlate := mlate m ++ [false];
-                         mscope := mscope m && match mcl m with [] => true | _ => negb (all_closed (mcl m)) end |}).
-    { destruct HR as [Hcl Hlen Hlenl Hcloses Hopen Hclosed Hlate Hlo].
-      constructor; simpl.
+    match goal with |- _ /\ Rel ?a ?b => assert (HR' : Rel a b) end.
+    { destruct HR as [Hcl Hlen Hlenl Hlent Hdl Hcloses Hopen Htopen Hto Hclosed Hlate Hlo Hnook].
+      constructor; unfold slot; simpl.
       - rewrite Hcl. reflexivity.
       - rewrite !app_length, Hlen. reflexivity.
       - rewrite !app_length, Hlenl. reflexivity.
+      - rewrite !app_length, Hlent. reflexivity.
+      - rewrite Hdl. reflexivity.
       - intros Hs. apply andb_true_iff in Hs. destruct Hs as [Hs Hn]. specialize (Hcloses Hs).
         rewrite Hcl in Hn. rewrite closes_ok_app. unfold closes_ok in Hcloses.
         destruct (fclosed fs) as [|b l] eqn:E; [exact Hcloses|].
         apply negb_true_iff in Hn. rewrite Hn in Hcloses. exact Hcloses.
-      - intros Hs h Hh. apply andb_true_iff in Hs. destruct Hs as [Hs _]. unfold slot; simpl.
-        rewrite nth_error_app_last in Hh. rewrite nth_error_app_last, Hlen.
-        destruct (Nat.ltb h (List.length (fclosed fs))); [apply (Hopen Hs h Hh)|].
-        destruct (Nat.eqb h (List.length (fclosed fs))); [auto|discriminate].
-      - intros h Hh. unfold slot; simpl. rewrite nth_error_app_last in Hh. rewrite nth_error_app_last, Hlen.
+      - intros Hs h v Hh Hv. apply andb_true_iff in Hs. destruct Hs as [Hs _].
+        rewrite nth_error_app_last in Hh. rewrite nth_error_app_last in Hv. rewrite Hlen in Hv.
+        destruct (Nat.ltb h (List.length (fclosed fs))); [eapply Hopen; eauto|].
+        destruct (Nat.eqb h (List.length (fclosed fs))); [inversion Hv; left; reflexivity|discriminate].
+      - intros Hs h Hh Ht. apply andb_true_iff in Hs. destruct Hs as [Hs _].
+        rewrite nth_error_app_last in Hh. rewrite nth_error_app_last in Ht. rewrite nth_error_app_last, Hlen. rewrite Hlent in Ht.
+        destruct (Nat.ltb h (List.length (fclosed fs))); [apply (Htopen Hs h Hh Ht)|].
+        destruct (Nat.eqb h (List.length (fclosed fs))); discriminate.
+      - intros h Hh. rewrite nth_error_app_last in Hh. rewrite nth_error_app_last, Hlent. rewrite Hlen in Hh.
+        destruct (Nat.ltb h (List.length (fclosed fs))); [apply (Hto h Hh)|].
+        destruct (Nat.eqb h (List.length (fclosed fs))); discriminate.
+      - intros h Hh. rewrite nth_error_app_last in Hh. rewrite nth_error_app_last, Hlen.
         destruct (Nat.ltb h (List.length (fclosed fs))); [apply (Hclosed h Hh)|].
         destruct (Nat.eqb h (List.length (fclosed fs))); discriminate.
-      - intros h Hh Hl. unfold slot; simpl. rewrite nth_error_app_last in Hh, Hl. rewrite nth_error_app_last, Hlen.
+      - intros h Hh Hl. rewrite nth_error_app_last in Hh. rewrite nth_error_app_last in Hl. rewrite nth_error_app_last, Hlen.
         rewrite Hlenl in Hl.
         destruct (Nat.ltb h (List.length (fclosed fs))); [apply (Hlate h Hh Hl)|].
         destruct (Nat.eqb h (List.length (fclosed fs))); discriminate.
       - intros h Hh. rewrite nth_error_app_last in Hh. rewrite nth_error_app_last, Hlenl.
         destruct (Nat.ltb h (List.length (fclosed fs))); [apply (Hlo h Hh)|].
-        destruct (Nat.eqb h (List.length (fclosed fs))); [reflexivity|discriminate]. }
-    split; [|exact HR'].
-    apply (closes_check_ok _ _ HR').
+        destruct (Nat.eqb h (List.length (fclosed fs))); [reflexivity|discriminate].
+      - intros h. rewrite nth_error_app_last, Hlen.
+        destruct (Nat.ltb h (List.length (fclosed fs))); [apply Hnook|].
+        destruct (Nat.eqb h (List.length (fclosed fs))); discriminate. }
+    split; [|exact HR']. apply (closes_check_ok _ _ HR').
   - (* OClose *)
     pose proof (rel_close fs m h HR) as HR'. split; [|exact HR'].
     unfold all_ok at 1. simpl. apply (closes_check_ok _ _ HR').
@@ -568,7 +643,7 @@ Proof.
     unfold all_ok at 1. simpl. apply (closes_check_ok _ _ HR').
   - (* OPCloseW *)
     pose proof (rel_closes hs fs m HR) as HR'. split; [|exact HR'].
-    pose proof (closes_check_ok _ _ HR') as Hcc. simpl in Hcc.
+    pose proof (closes_check_ok _ _ HR') as Hcc.
     assert (Hnf : mscope m = true ->
                   Z.of_nat (if Nat.ltb 0 (fcloses fs) then existing_among (fclosed fs) hs ws else closed_among (fclosed fs) hs ws)
                   = Z.of_nat (closed_among (mcl m) hs ws)).
@@ -577,73 +652,106 @@ Proof.
       apply existing_closed_among. pose proof (r_closes _ _ HR Hs) as Hc. unfold closes_ok in Hc.
       destruct (fclosed fs) eqn:E; [apply Z.eqb_eq in Hc; lia|]. rewrite <- E in *.
       destruct (all_closed (fclosed fs)); [reflexivity|apply Z.eqb_eq in Hc; lia]. }
-    destruct (mscope m) eqn:Hs; unfold all_ok in *; simpl in *.
-    + rewrite andb_true_r in Hcc. rewrite Hcc. simpl. rewrite (Hnf eq_refl), Z.eqb_refl. reflexivity.
-    + reflexivity.
+    unfold all_ok in *. simpl. rewrite forallb_app. apply andb_true_intro. split; [exact Hcc|].
+    destruct (mscope m) eqn:Hs; [|reflexivity]. simpl.
+    rewrite (Hnf eq_refl), Z.eqb_refl. reflexivity.
   - (* OWrite *)
     rewrite (r_cl _ _ HR). destruct (nth_error (fclosed fs) h) as [[|]|] eqn:E; simpl.
-    + split; [reflexivity|destruct m; exact HR].
-    + split; [|destruct m; exact HR]. destruct (mscope m) eqn:Hs; [|reflexivity].
+    + split; [reflexivity|exact HR].
+    + split; [|exact HR]. destruct (mscope m) eqn:Hs; [|reflexivity].
       assert (fcloses fs = O) by (eapply closes_ok_zero; [apply (r_closes _ _ HR Hs)|eauto]).
       rewrite H. reflexivity.
-    + split; [reflexivity|destruct m; exact HR].
+    + split; [reflexivity|exact HR].
+  - (* ODeadline *)
+    destruct (nth_error (fclosed fs) h) as [[|]|] eqn:E; simpl; (split; [reflexivity|]); try exact HR.
+    pose proof HR as [Hcl Hlen Hlenl Hlent Hdl Hcloses Hopen Htopen Hto Hclosed Hlate Hlo Hnook].
+    constructor; unfold slot in *; simpl; auto. rewrite Hdl. reflexivity.
   - (* ORStart *)
-    pose proof HR as HR0. destruct HR as [Hcl Hlen Hlenl Hcloses Hopen Hclosed Hlate Hlo].
+    pose proof HR as HR0. destruct HR as [Hcl Hlen Hlenl Hlent Hdl Hcloses Hopen Htopen Hto Hclosed Hlate Hlo Hnook].
     destruct (nth_error (fclosed fs) h) as [[|]|] eqn:E; simpl;
       [ | | split; [reflexivity|exact HR0] ].
     + (* closed handle: fails at once *)
-      destruct (nth_error (fread fs) h) as [[| | |]|] eqn:E2; simpl;
+      destruct (nth_error (fread fs) h) as [[| | | |]|] eqn:E2; simpl;
         try (split; [reflexivity|exact HR0]).
       split; [reflexivity|]. rewrite Hcl, E.
-      eapply (rel_update_slot fs m h (RGot RClosedPipe) (fqueued fs) (set_nth (mlate m) h true) RNone);
-        [ reflexivity | exact HR0 | exact E2 | intros; congruence | intros; discriminate | intros; auto
-        | intros k Hk; apply nth_set_nth_neq; congruence | apply set_nth_length | intros; congruence ].
+      eapply (rel_update_slot fs m _ _ h (RGot RClosedPipe) RNone HR0 E2); simpl;
+        try reflexivity; try (apply set_nth_length); try (intros k Hk; apply nth_set_nth_neq; congruence);
+        try (intros; congruence); try discriminate.
+      * intros _. split; [discriminate|intros k; discriminate].
+      * intros; auto.
     + (* open handle *)
-      destruct (nth_error (fread fs) h) as [[| | |]|] eqn:E2; simpl;
+      destruct (nth_error (fread fs) h) as [[| | | |]|] eqn:E2; simpl;
         try (split; [reflexivity|exact HR0]).
-      assert (Hml : exists b, nth_error (mlate m) h = Some b).
-      { destruct (nth_error (mlate m) h) eqn:E3; [eauto|]. apply nth_error_None in E3. apply nth_error_lt in E. lia. }
-      destruct Hml as [b0 Hb0].
-      assert (Hgen : forall v q, (mscope m = true -> v = RBlocked \/ v = RGot ROk) ->
-                Rel {| fclosed := fclosed fs; fcloses := fcloses fs; fread := set_nth (fread fs) h v; fqueued := q |}
-                    (mark m (ORStart h) [0])).
-      { intros v q Hv. simpl. rewrite Hcl, E.
-        eapply (rel_update_slot fs m h v q (set_nth (mlate m) h false) RNone);
-          [ reflexivity | exact HR0 | exact E2
-          | intros Hs _; destruct (Hv Hs) as [->| ->]; auto
-          | intros; congruence | intros; congruence
-          | intros k Hk; apply nth_set_nth_neq; congruence | apply set_nth_length
-          | intros _; apply (nth_set_nth_eq _ _ _ _ Hb0) ]. }
+      destruct (nth_error_in_range (mlate m) h _ Hlenl (nth_error_lt _ _ _ E)) as [b0 Hb0].
+      destruct (nth_error_in_range (mto m) h _ Hlent (nth_error_lt _ _ _ E)) as [t0 Ht0].
+      assert (Hgen : forall v fs',
+                fclosed fs' = fclosed fs -> fcloses fs' = fcloses fs -> fdl fs' = fdl fs ->
+                fread fs' = set_nth (fread fs) h v ->
+                (mscope m = true -> slot_open_ok v) ->
+                (v = RBlocked -> nth_error (fdl fs) h <> Some 2%nat) ->
+                (v = RGot RTimeout -> nth_error (fdl fs) h = Some 2%nat) ->
+                v <> RGot ROk ->
+                Rel fs' (mark m (ORStart h) [0])).
+      { intros v fs' e1 e2 e3 e4 Hv Hvb Hvt Hvo. simpl. rewrite Hcl, E.
+        eapply (rel_update_slot fs m fs' _ h v RNone HR0 E2 e1 e2 e3 e4); simpl;
+          try reflexivity; try (apply set_nth_length); try (intros k Hk; apply nth_set_nth_neq; congruence);
+          try (symmetry; exact Hcl).
+        - intros Hs _. apply Hv. exact Hs.
+        - intros Hs _ Ht. rewrite (nth_set_nth_eq _ _ _ _ Ht0) in Ht. intros Hb. apply (Hvb Hb).
+          rewrite Hdl in Ht. destruct (nth_error (fdl fs) h) as [[|[|[|n]]]|]; try discriminate. reflexivity.
+        - intros Ht. rewrite (nth_set_nth_eq _ _ _ _ Ht0). rewrite Hdl, (Hvt Ht). reflexivity.
+        - intros; congruence.
+        - intros; congruence.
+        - intros _. apply (nth_set_nth_eq _ _ _ _ Hb0).
+        - exact Hvo. }
       destruct (Nat.ltb_spec 0 (fcloses fs)) as [Hpos|Hz]; simpl.
-      * split; [reflexivity|]. apply Hgen. intros Hs. exfalso.
+      * split; [reflexivity|]. eapply Hgen; try reflexivity; try congruence.
+        intros Hs. exfalso.
         assert (fcloses fs = O) by (eapply closes_ok_zero; [apply (Hcloses Hs)|eauto]). lia.
-      * destruct (fqueued fs); simpl; (split; [reflexivity|]); apply Hgen; auto.
+      * destruct (fqueued fs) as [|k q]; simpl.
+        -- destruct (nth_error (fdl fs) h) as [[|[|[|n]]]|] eqn:Ed; simpl; (split; [reflexivity|]);
+             eapply Hgen; try reflexivity; try congruence; intros; unfold slot_open_ok; auto.
+        -- split; [reflexivity|]. eapply Hgen; try reflexivity; try congruence.
+           intros _. right. right. left. eauto.
   - (* ORPoll *)
-    pose proof HR as HR0. destruct HR as [Hcl Hlen Hlenl Hcloses Hopen Hclosed Hlate Hlo].
+    pose proof HR as HR0. destruct HR as [Hcl Hlen Hlenl Hlent Hdl Hcloses Hopen Htopen Hto Hclosed Hlate Hlo Hnook].
     assert (Hreset : forall sl, nth_error (fread fs) h = Some sl ->
-              Rel {| fclosed := fclosed fs; fcloses := fcloses fs; fread := set_nth (fread fs) h RNone; fqueued := fqueued fs |} m).
-    { intros sl Hsl. destruct m as [c l sc]. 
-      eapply (rel_update_slot fs {| mcl := c; mlate := l; mscope := sc |} h RNone (fqueued fs) l sl);
-        [ exact Hcl | exact HR0 | exact Hsl | intros; auto | intros; discriminate | intros; auto
-        | intros; reflexivity | reflexivity | intros Ho; apply (Hlo h Ho) ]. }
-    destruct (nth_error (fread fs) h) as [[| |r|]|] eqn:E2; simpl.
+              Rel (set_fread fs (set_nth (fread fs) h RNone)) m).
+    { intros sl Hsl.
+      eapply (rel_update_slot fs m _ m h RNone sl HR0 Hsl); simpl; try reflexivity; auto;
+        try (intros; unfold slot_open_ok; auto; congruence); try discriminate.
+      intros _. split; [discriminate|intros k; discriminate]. }
+    unfold is_true.
+    destruct (nth_error (fread fs) h) as [[| |k|r|]|] eqn:E2; simpl.
     + (* no read *) split; [|exact HR0]. rewrite Hcl.
       destruct (nth_error (fclosed fs) h) as [[|]|]; simpl; [destruct (nth_error (mlate m) h) as [[|]|]| |]; simpl;
-        try destruct (mscope m); reflexivity.
+        try destruct (mscope m); try destruct (nth_error (mto m) h) as [[|]|]; reflexivity.
     + (* blocked *) split; [|exact HR0]. rewrite Hcl.
       destruct (nth_error (fclosed fs) h) as [[|]|] eqn:E; simpl.
-      * exfalso. apply (Hclosed h E). exact E2.
-      * destruct (mscope m); reflexivity.
+      * exfalso. apply (proj1 (Hclosed h E)). exact E2.
+      * destruct (mscope m) eqn:Hs; [|reflexivity].
+        destruct (nth_error (mto m) h) as [[|]|] eqn:Et; try reflexivity.
+        exfalso. apply (Htopen eq_refl h E Et). exact E2.
       * reflexivity.
-    + (* a result *)
+    + (* a datagram *)
+      split; [|apply (Hreset (RData k) eq_refl)]. rewrite Hcl.
+      destruct (nth_error (fclosed fs) h) as [[|]|] eqn:E; simpl.
+      * exfalso. apply (proj2 (Hclosed h E) k). exact E2.
+      * destruct (mscope m); [|reflexivity]. destruct (nth_error (mto m) h) as [[|]|]; reflexivity.
+      * reflexivity.
+    + (* a failure *)
       split; [|apply (Hreset (RGot r) eq_refl)]. rewrite Hcl.
       destruct (nth_error (fclosed fs) h) as [[|]|] eqn:E; simpl.
       * destruct (nth_error (mlate m) h) as [[|]|] eqn:El; simpl.
         -- destruct (Hlate h E El) as [H|H]; unfold slot in H; rewrite E2 in H; inversion H. reflexivity.
-        -- destruct r; reflexivity.
-        -- destruct r; reflexivity.
+        -- destruct r; try reflexivity.
+           ++ exfalso. apply (Hnook h). exact E2.
+           ++ rewrite (Hto h E2). reflexivity.
+        -- destruct r; try reflexivity.
+           ++ exfalso. apply (Hnook h). exact E2.
+           ++ rewrite (Hto h E2). reflexivity.
       * destruct (mscope m) eqn:Hs; [|reflexivity].
-        destruct (Hopen eq_refl h E) as [H|[H|H]]; unfold slot in H; rewrite E2 in H; inversion H. reflexivity.
+        destruct (Hopen eq_refl h _ E E2) as [H|[H|[[j H]|H]]]; inversion H. subst. rewrite (Hto h E2). reflexivity.
       * reflexivity.
     + (* data handed over, then closed *)
       split; [|apply (Hreset REither eq_refl)]. rewrite Hcl.
@@ -651,26 +759,26 @@ Proof.
       * destruct (nth_error (mlate m) h) as [[|]|] eqn:El; simpl; try reflexivity.
         destruct (Hlate h E El) as [H|H]; unfold slot in H; rewrite E2 in H; inversion H.
       * destruct (mscope m) eqn:Hs; [|reflexivity].
-        destruct (Hopen eq_refl h E) as [H|[H|H]]; unfold slot in H; rewrite E2 in H; inversion H.
+        destruct (Hopen eq_refl h _ E E2) as [H|[H|[[j H]|H]]]; inversion H.
       * reflexivity.
     + split; [|exact HR0]. rewrite Hcl.
       destruct (nth_error (fclosed fs) h) as [[|]|]; simpl; [destruct (nth_error (mlate m) h) as [[|]|]| |]; simpl;
-        try destruct (mscope m); reflexivity.
+        try destruct (mscope m); try destruct (nth_error (mto m) h) as [[|]|]; reflexivity.
   - (* ODeliver *)
     destruct (match count_blocked (fread fs) with S (S _) => true | _ => false end); simpl; [split; [reflexivity|exact HR]|].
-    destruct (match fclosed fs with [] => false | _ :: _ => all_closed (fclosed fs) end); simpl;
+    rewrite (r_cl _ _ HR).
+    destruct (match fclosed fs with [] => false | _ :: _ => all_closed (fclosed fs) end) eqn:Eall; simpl;
       [split; [reflexivity|exact HR]|].
-    pose proof HR as HR0. destruct HR as [Hcl Hlen Hlenl Hcloses Hopen Hclosed Hlate Hlo].
+    pose proof HR as HR0. destruct HR as [Hcl Hlen Hlenl Hlent Hdl Hcloses Hopen Htopen Hto Hclosed Hlate Hlo Hnook].
     destruct (first_blocked (fread fs) 0) as [k|] eqn:Efb; simpl; (split; [reflexivity|]).
     + apply first_blocked_spec in Efb. destruct Efb as [_ Hk]. rewrite Nat.sub_0_r in Hk.
       assert (Hko : nth_error (fclosed fs) k = Some false).
-      { destruct (nth_error (fclosed fs) k) as [[|]|] eqn:E; [exfalso; apply (Hclosed k E); exact Hk|reflexivity|].
+      { destruct (nth_error (fclosed fs) k) as [[|]|] eqn:E; [exfalso; apply (proj1 (Hclosed k E)); exact Hk|reflexivity|].
         apply nth_error_None in E. apply nth_error_lt in Hk. lia. }
-      destruct m as [c l sc].
-      eapply (rel_update_slot fs {| mcl := c; mlate := l; mscope := sc |} k (RGot ROk) (fqueued fs) l RBlocked);
-        [ exact Hcl | exact HR0 | exact Hk | intros; auto | intros; discriminate | intros; congruence
-        | intros; reflexivity | reflexivity | intros Ho; apply (Hlo k Ho) ].
-    + constructor; simpl; auto.
+      eapply (rel_update_slot fs m _ _ k (RData (S (fdelivs fs))) RBlocked HR0 Hk); simpl; try reflexivity; auto;
+        try (intros; congruence); try discriminate.
+      intros _ _. right. right. left. eauto.
+    + eapply rel_ext; [exact HR0| | | | | | | | | ]; simpl; try reflexivity; symmetry; exact Hcl.
 Qed.
 
 (* the monitor accepts every history of the sequential model *)
